@@ -70,11 +70,14 @@ class Scheduler:
         self.preempt_prob = preempt_prob
         self.src_prefix = src_prefix
         self.blocked_report = ""
+        self.closed = False  # set when the run is over: every primitive becomes inert (late finalisers)
 
     # -- introspection -------------------------------------------------------------------
     def in_logical_thread(self):
+        # compare thread OBJECTS (idents are reused by later threads: a finaliser of a previous run's object,
+        # executed by a thread of a later run, must not be mistaken for one of this scheduler's threads)
         cur = self.current
-        return cur is not None and cur.real is not None and cur.real.ident == threading.get_ident()
+        return (not self.closed) and cur is not None and cur.real is not None and cur.real is threading.current_thread()
 
     def event(self, *what):
         self.log.append((self.current.name if self.current else "?",) + what)
@@ -86,7 +89,6 @@ class Scheduler:
         if self.names[base] > 1:
             base = f"{base}#{self.names[base]}"
         t = LThread(self, base, fn, args)
-        self.threads.append(t)
 
         def body():
             t.sem.acquire()
@@ -113,6 +115,7 @@ class Scheduler:
 
         t.real = threading.Thread(target=body, name="L-" + base, daemon=True)
         t.real.start()
+        self.threads.append(t)  # visible to the scheduler only once its real thread exists
         if self.in_logical_thread():
             self.yield_point("spawn")
         return t
@@ -132,16 +135,38 @@ class Scheduler:
     def run(self, main_fn, args=(), wall_timeout=120.0):
         """Run main_fn as logical thread 'main' until every logical thread has finished.
         Raises Deadlock when no thread can move (after tearing the threads down)."""
+        import gc
+
+        # no cyclic GC while the baton is being passed: finalisers (Channel.__del__ sends frames, i.e. is a
+        # scheduling point) must run at the deterministic points refcounting gives them, never inside the
+        # scheduler's own code at an allocation-count dependent moment
+        gc_was = gc.isenabled()
+        gc.disable()
         self.spawn(main_fn, args, name="main")
         first = self._pick()
         self.current = first
         first.sem.release()
-        if not self.done.wait(wall_timeout):
-            self.blocked_report = self.describe()
-            self._abort_all()
-            raise Deadlock("wall-clock time-out of the scheduler run (a thread blocked outside the scheduler?)\n" + self.blocked_report)
-        if self.deadlock:
-            raise Deadlock(("livelock (step budget exhausted)\n" if self.livelock else "deadlock: no thread can move\n") + self.blocked_report)
+        try:
+            if not self.done.wait(wall_timeout):
+                self.blocked_report = self.describe() + "\n" + self.current_stack()
+                self._abort_all()
+                raise Deadlock("wall-clock time-out of the scheduler run (a thread blocked outside the scheduler?)\n" + self.blocked_report)
+            if self.deadlock:
+                raise Deadlock(("livelock (step budget exhausted)\n" if self.livelock else "deadlock: no thread can move\n") + self.blocked_report)
+        finally:
+            self.closed = True
+            if gc_was:
+                gc.enable()
+
+    def current_stack(self):
+        cur = self.current
+        try:
+            fr = sys._current_frames().get(cur.real.ident) if cur and cur.real else None
+            if fr is None:
+                return ""
+            return "current thread %s is at:\n%s" % (cur.name, "".join(traceback.format_stack(fr)[-8:]))
+        except Exception:
+            return ""
 
     def describe(self):
         return "\n".join(f"  {t.name}: " + ("finished" if not t.alive else ("blocked on " + t.what if t.pred else "runnable")) for t in self.threads)
@@ -222,6 +247,8 @@ class Scheduler:
                 raise SchedAbort()
 
     def yield_point(self, what=""):
+        if self.closed:
+            return
         if self.aborted:
             raise SchedAbort()
         if not self.in_logical_thread():
@@ -230,6 +257,8 @@ class Scheduler:
 
     def block_until(self, pred, timeout=None, what=""):
         """Scheduling point; then wait until pred() holds.  Returns False iff the (virtual) time-out expired."""
+        if self.closed:
+            return bool(pred())
         if self.aborted:
             raise SchedAbort()
         if not self.in_logical_thread():
